@@ -93,6 +93,18 @@ def call_classified(fn, *args, **kw):
         return None, "raise:" + type(e).__name__
 
 
+class StrSub(str):
+    """a str subclass whose str() differs from its content: hashes / compares / startswith() as `content`,
+    but str(key) — what SandboxedEnvironment.getitem fetches with getattr — is `shown`"""
+    def __new__(cls, content, shown):
+        self = super().__new__(cls, content)
+        self.shown = shown
+        return self
+
+    def __str__(self):
+        return self.shown
+
+
 # ------------------------------------------------------------------ synthetic objects
 class Val:
     """distinct identity-carrying values for 'the attribute' and 'the item'"""
@@ -260,6 +272,8 @@ def tracer_data():
     hf = "{0._secret}|{0.pub}".format
     data.update({"hf": hf, "hd": {"f": hf}, "hl": [hf], "hm": "{x._secret}|{x.pub}".format_map,
                  "hmk": Markup("{0._secret}|{0.pub}").format, "ht": (hf,)})
+    # subscript keys that are str subclasses: content "safe", str() = the attribute name under test
+    data["sk"] = {n: StrSub("safe", n) for n in PRIVATE_NAMES + PUBLIC_NAMES + ["nosuchattr_zz"]}
     return data, g.close
 
 
@@ -280,6 +294,8 @@ ACCESS = {
     "dot": "{{ (%(b)s).%(n)s }}",
     "subscript": "{{ (%(b)s)['%(n)s'] }}",
     "subscript-var": "{%% set k = '%(n)s' %%}{{ (%(b)s)[k] }}",
+    "subscript-strsubclass": "{{ (%(b)s)[sk['%(n)s']] }}",
+    "map-strsubclass": "{{ [%(b)s]|map(attribute=sk['%(n)s'])|list }}",
     "attr-filter": "{{ (%(b)s)|attr('%(n)s') }}",
     "call": "{{ ((%(b)s).%(n)s)() }}",
     "call-arg": "{{ ((%(b)s).%(n)s)(1) }}",
